@@ -33,8 +33,13 @@
 #ifndef VF_REPLAY
 __CPROVER_size_t nondet_vf_size(void);
 #endif
+static unsigned long vf_alloc_size[4];	/* sizes of the first allocations of main(): key array, key block, extent buffer */
+static int vf_allocs;
 static inline void *vf_malloc(size_t n)
 {
+	if (vf_allocs < 4)
+		vf_alloc_size[vf_allocs] = n;
+	vf_allocs++;
 #ifndef VF_REPLAY
 	if (n > VF_BIGALLOC) {
 		size_t m = nondet_vf_size();
@@ -78,4 +83,8 @@ static char *vf_optarg;
 #define printf(...) ((void) 0)
 #define fprintf(...) ((void) 0)
 #define main vf_real_main
+#ifdef CUT_CHECKFS
+struct undo_context;
+static int check_filesystem(struct undo_context *ctx, io_channel channel);	/* cut: specification stub in e2undo_env.h */
+#endif
 #endif
